@@ -76,7 +76,7 @@ SigOf(nm, T, args) ==
    \cup {cTrue, Neg, EqC(TA), MacroB, MacroS}
    \cup {<<"const", nm, T>>}                                                     \* self-reference
    \cup { <<"const",nm,T2>> : T2 \in OtherInst(nm, T) }                          \* the same name at other types (overlapping or not)
-   \cup (IF Rich THEN {EqC(B), Conj, MacroA, <<"var","w",TA>>, AllC(TA)} ELSE {})
+   \cup (IF Rich THEN {EqC(B), Conj, MacroA, AllC(TA)} ELSE {})
 GenArgTypes == {B, TA, FunT(TA,B)} \cup (IF Rich THEN {FunT(B,B)} ELSE {})
 Cand(nm, T, args, rhs) == [name |-> nm, T |-> T, args |-> args, rhs |-> rhs]
 CandsFor(nm, T, args) == { Cand(nm, T, args, Expand(r)) : r \in Gen(SigOf(nm, T, args), GenArgTypes, RestT(T, Len(args)), Depth, <<>>) }
@@ -92,12 +92,13 @@ Closed(T) == IF T[1] \in {"tv","stv"} THEN FALSE ELSE \A i \in 1..Len(T[3]) : Cl
 NewName(t, x) == IF x.name \notin DOMAIN t.consts THEN TRUE
                  ELSE t.consts[x.name].ov /\ LET m == TMatch(ToStv(t.consts[x.name].T), x.T, <<>>) IN
                                              m # ErrAL /\ \A i \in 1..Len(m) : Closed(m[i][2])
-Extend(t, x) == [types |-> t.types,
-                 consts |-> IF x.name \in DOMAIN t.consts THEN t.consts ELSE (x.name :> Decl(x.T, FALSE)) @@ t.consts,
-                 thms |-> t.thms \cup {DefProp(x)}]
-CSig(t) == LET ks == SetToSeq(DOMAIN t.consts) IN [i \in 1..Len(ks) |-> <<ks[i], t.consts[ks[i]].T>>]
+\* the signature after the definition: a new name is declared at the type given (an instance of an overloaded name is not)
+ExtConsts(t, x) == IF x.name \in DOMAIN t.consts THEN t.consts ELSE (x.name :> Decl(x.T, FALSE)) @@ t.consts
+Extend(t, x) == [types |-> t.types, consts |-> ExtConsts(t, x), thms |-> t.thms \cup {DefProp(x)}]
+CSigOf(cs) == LET ks == SetToSeq(DOMAIN cs) IN [i \in 1..Len(ks) |-> <<ks[i], cs[ks[i]].T>>]
+CSig(t) == CSigOf(t.consts)
 \* the defining equation is well-typed over the signature extended by the constant (a NEW name must not occur at a non-instance type)
-WellFormed(t, x) == PropOK(DefProp(x), CSig(Extend(t, x)), t.types)
+WellFormed(t, x) == PropOK(DefProp(x), CSigOf(ExtConsts(t, x)), t.types)
 Acceptable(t, x) == SyntacticOK(x) /\ NewName(t, x) /\ WellFormed(t, x)
 Init == thy = BaseThy /\ d \in Candidates /\ phase = "offered"
 Add == /\ phase = "offered" /\ Acceptable(thy, d)
